@@ -322,6 +322,8 @@ def queryShimPoly (C : FieldCtx F) (g : Gadget F) (gadgetPoly : List F) : Res (A
   let p := wirePolyLen g.calls
   let np2 := nextPow2 gadgetPoly.length
   let padded : Array F := (gadgetPoly ++ List.replicate (np2 - gadgetPoly.length) 0).toArray
+  if np2 > 2 ^ maxRoots then .err            -- the roots needed to extend the polynomial are not tabulated
+  else
   match nthRootPowers C.root (Nat.log2 np2) with
   | none => .panic
   | some roots =>
